@@ -432,6 +432,9 @@ var templates = []template{
 	{name: "coalesce", weight: 2, prefs: []string{"any", "scalar"}},
 	{name: "destructure", weight: 2, prefs: []string{"sliceish"}, ops: []string{"let", "var"}},
 	{name: "letmapitem", weight: 1, prefs: []string{"map", "key"}},
+	// the value is what a script function returns to Go: a callback with one result, with two results (a
+	// list of two is split over them), with a typed result
+	{name: "cbresult", weight: 3, prefs: []string{"sliceish"}, ops: []string{"one", "two", "two", "ints"}},
 }
 
 var templateByName = map[string]*template{}
@@ -819,6 +822,8 @@ func body(c Case, e []string) string {
 		return "ra, rb = " + e[0]
 	case "letmapitem":
 		return "ra, rb = " + e[0] + "[" + e[1] + "]"
+	case "cbresult":
+		return map[string]string{"one": "gcb1", "two": "gcb2", "ints": "gcbi"}[c.Op] + "(func() { return " + e[0] + " })"
 	}
 	panic("unknown template " + c.T)
 }
@@ -830,6 +835,9 @@ func newEnv() *env.Env {
 	e.Define("id", func(x interface{}) interface{} { return x })
 	e.Define("gpair", func(a, b interface{}) []interface{} { return []interface{}{a, b} })
 	e.Define("gi", func(a int64) int64 { return a + 1 })
+	e.Define("gcb1", func(f func() interface{}) interface{} { return f() })
+	e.Define("gcb2", func(f func() (interface{}, interface{})) []interface{} { a, b := f(); return []interface{}{a, b} })
+	e.Define("gcbi", func(f func() []int64) interface{} { return f() })
 	e.Define("gs", func(s []interface{}) int64 { return int64(len(s)) })
 	e.Define("gv", func(xs ...interface{}) []interface{} { return append([]interface{}{int64(len(xs))}, xs...) })
 	e.Define("hdur", func() interface{} { return 90 * time.Second })
